@@ -353,8 +353,51 @@ def rule_r7(chk, facts, P):
         raise AnalysisBroken('no increment of WarnCount found')
 
 
+def rule_r8(chk, facts, P):
+    chk.rule('C02-R8', 'the diagnostics log (-E): outside the fatal-error exit, ErrorFile is closed only under a test of '
+             'ErrorPath - per source file when no common log was named, once at the end of the run when one was. The '
+             'emitter opens the log for writing on its first use, so a close in between truncates what earlier source '
+             'files reported while exit status and summary still count it', min_instances=2)
+    n = 0
+    for f in P.all_funcs():
+        if f.entry is None or f.unit.name not in ('as.c', 'asmerr.c', 'asmsub.c'):
+            continue
+        for b, i, ln, c in f.calls(('CloseIfOpen', 'fclose')):
+            a = nocast(c[2][0]) if c[2] else None
+            if a is None or not any(isinstance(m, (list, tuple)) and len(m) > 1 and m[0] in GLOBKINDS and m[1] == 'ErrorFile' for m in walk(a)):
+                continue
+            # the fatal exit closes everything and leaves
+            if f.exit not in f.reach_forward([b]) and not any(True for _ in []):
+                pass
+            leaves = f.exit not in f.reach_forward([b])
+            if not leaves:
+                # a clean-up helper all of whose callers leave the program right after it
+                sites = [(g, bb) for g in P.all_funcs() if g.entry is not None for bb, ii, l2, c2 in g.calls(f.name)
+                         if P.resolve(g.unit, f.name) is f]
+                leaves = bool(sites) and all(g.exit not in g.reach_forward([bb]) for g, bb in sites)
+            n += 1
+            if leaves:
+                chk.ob('C02-R8', '%s:%s:close-ErrorFile' % (f.unit.name, f.name), True, f.loc(ln), 'on the way out of the program')
+                continue
+            conds = [blk['cond'] for blk in f.blocks.values() if blk.get('cond') is not None and len(blk['succ']) == 2 and any(
+                isinstance(m, (list, tuple)) and len(m) > 1 and m[0] in GLOBKINDS and m[1] == 'ErrorPath' for m in walk(blk['cond']))]
+            ok, w = False, []
+            for c_ in conds:
+                for pol in ('T', 'F'):
+                    g_, w_ = f.guarded(b, i, lambda l, c_=c_, pol=pol: l is not None and l[0] == pol and l[1] is c_)
+                    ok = ok or g_
+                    w = w or w_
+            chk.ob('C02-R8', '%s:%s:close-ErrorFile' % (f.unit.name, f.name), ok, f.loc(ln),
+                   'under a test of ErrorPath' if ok else
+                   'ErrorFile is closed without looking at ErrorPath: with "-E file" and several sources the log is reopened '
+                   '(truncated) by the next diagnostic, so errors of earlier files vanish from it')
+    if n < 2:
+        raise AnalysisBroken('closes of ErrorFile not found')
+
+
 def run(chk, facts, info):
     P = facts.program('asl')
+    rule_r8(chk, facts, P)
     rule_r1(chk, facts, P)
     rule_r2(chk, facts, P)
     rule_r3(chk, facts, P)
